@@ -161,6 +161,58 @@ func intrinsic(name string, fn *ssa.Function, args []value, free []value) (value
 			}
 			return fromBytes(b[lo:hi])
 		}), true
+	case "strings.TrimSuffix", "strings.TrimPrefix", "strings.CutSuffix", "strings.CutPrefix":
+		suffix := strings.HasSuffix(name, "Suffix")
+		cut := strings.HasPrefix(name, "strings.Cut")
+		one := func(sv, pv value) value {
+			sb, pb := toBytes(sv), toBytes(pv)
+			has := false
+			if len(pb) <= len(sb) {
+				if suffix {
+					has = branch(strEq(fromBytes(sb[len(sb)-len(pb):]), pv))
+				} else {
+					has = branch(strEq(fromBytes(sb[:len(pb)]), pv))
+				}
+			}
+			res := sv
+			if has {
+				if suffix {
+					res = fromBytes(sb[:len(sb)-len(pb)])
+				} else {
+					res = fromBytes(sb[len(pb):])
+				}
+			}
+			if cut {
+				return tuple{res, has}
+			}
+			return res
+		}
+		a0, a1 := args[0], args[1]
+		if !isSym(a0) && !isSym(a1) {
+			// concrete or tables: map natively
+			r := lift2(a0, a1, func(x, y value) value {
+				xs, ys := x.(string), y.(string)
+				var res string
+				var found bool
+				if suffix {
+					res, found = strings.CutSuffix(xs, ys)
+				} else {
+					res, found = strings.CutPrefix(xs, ys)
+				}
+				if cut {
+					return tuple{res, found}
+				}
+				return res
+			})
+			return transpose(r), true
+		}
+		if t, ok := a0.(*tab); ok {
+			a0 = concretize(t)
+		}
+		if t, ok := a1.(*tab); ok {
+			a1 = concretize(t)
+		}
+		return one(splitUnion(a0), splitUnion(a1)), true
 	case "regexp.Compile", "regexp.MustCompile":
 		p, ok := concretize(args[0]).(string)
 		if !ok {
@@ -266,7 +318,13 @@ func intrinsic(name string, fn *ssa.Function, args []value, free []value) (value
 		if !onceDone[key] {
 			onceDone[key] = true
 			if cl, ok := args[1].(*closure); ok && cl != nil {
-				call(cl.fn, nil, cl.env)
+				// one-time initialisation: stores to package-level state inside are idempotent
+				// set-up, not a frame breach of the calling function
+				inOnce++
+				func() {
+					defer func() { inOnce-- }()
+					call(cl.fn, nil, cl.env)
+				}()
 			}
 		}
 		return nil, true
@@ -307,7 +365,7 @@ func intrinsic(name string, fn *ssa.Function, args []value, free []value) (value
 			return kv
 		}
 		short := name[strings.LastIndex(name, ".")+1:]
-		if !inInit && short != "Load" {
+		if !inInit && inOnce == 0 && short != "Load" {
 			globalWrites["sync.Map"] = true
 			if rs.noCheck > 0 {
 				impureMerge("sync.Map write")
@@ -520,6 +578,7 @@ func jsonDecodeStub(doc *jsonStub, target iface) value {
 	return iface{}
 }
 
+var inOnce int
 var syncUses = map[string]bool{}
 var onceDone = map[*value]bool{}
 var syncMaps = map[*value]*mapVal{}
